@@ -1,17 +1,20 @@
 (* C08 - refutations on the faithful model: the race of the current code that is still open (late update).  The
    witness schedules are real executions of the implementation (corpus/C08).  The stale-snapshot witness is gone: since
-   the repair c1c8ab8 freshness at quiescence is a theorem for all schedules (Fresh.v). *)
+   the repair c1c8ab8 freshness at quiescence is a theorem for all schedules (Fresh.v).
+   Last: the VARIANT of reset_connection that deletes the entry of a set that has become empty (del = true; not the
+   code) loses a subscription - the counterpart of Subscribe.v. *)
 From Coq Require Import List Arith Bool.
 Import ListNotations.
 Require Import FV.C08.Model FV.C08.Lemmas FV.C08.Silence FV.C08.Fresh.
 
 (* every step of the schedule is enabled (no stuttering step) *)
-Fixpoint all_enabled (nd : node) (s : state) (sched : list (tid * conn)) : bool :=
+Fixpoint all_enabled_gen (del : bool) (nd : node) (s : state) (sched : list (tid * conn)) : bool :=
   match sched with
   | [] => true
   | st :: r => match fst st with TC c => cenabled s c | TU u => uenabled s u (snd st) end
-               && all_enabled nd (cstep nd s st) r
+               && all_enabled_gen del nd (cstep_gen del nd s st) r
   end.
+Definition all_enabled := all_enabled_gen false.
 
 Definition one : node := [(true, [true])].
 Definition P00 : pid := (0, 0).
@@ -34,9 +37,11 @@ Proof.
 Qed.
 
 (* the same after a disconnect: the update is handed to a connection that was already removed *)
+(* c0: start recv acquire:disp add acquire:upd0 build send send(active) | u0: start acquire:upd0 build |
+   c0: recv(close) discard discard | u0: send *)
 Definition late_close_sched : list (tid * conn) :=
-  [(TC 0, 0); (TC 0, 0); (TC 0, 0); (TC 0, 0); (TC 0, 0); (TC 0, 0); (TU 0, 0); (TU 0, 0); (TU 0, 0);
-   (TC 0, 0); (TC 0, 0); (TU 0, 0)].
+  [(TC 0, 0); (TC 0, 0); (TC 0, 0); (TC 0, 0); (TC 0, 0); (TC 0, 0); (TC 0, 0); (TC 0, 0); (TU 0, 0); (TU 0, 0); (TU 0, 0);
+   (TC 0, 0); (TC 0, 0); (TC 0, 0); (TU 0, 0)].
 
 Lemma refuted_late_update_after_close :
   exists nd cs us sched c p,
@@ -47,3 +52,35 @@ Lemma refuted_late_update_after_close :
 Proof.
   exists one, [[RAct (SP 0 0) false; RClose]], [[(P00, 1)]], late_close_sched, 0, P00. vm_compute. repeat split; reflexivity.
 Qed.
+
+(* ---- the variant that deletes empty entries: connection 0 (the only subscriber of module 0) disconnects between the
+   two halves of the subscribe of connection 1.
+   c0: start recv acquire:disp add acquire:upd0 build send send(active) | c1: start recv acquire:disp (lookup: the set of c0) |
+   c0: recv(close) discard (set empty: entry deleted) discard | c1: add (into the orphaned set) acquire:upd0 build send
+   send(active) recv-end | u0: start acquire:upd0 build (no listener) *)
+Definition lost_sched : list (tid * conn) :=
+  [(TC 0, 0); (TC 0, 0); (TC 0, 0); (TC 0, 0); (TC 0, 0); (TC 0, 0); (TC 0, 0); (TC 0, 0);
+   (TC 1, 0); (TC 1, 0); (TC 1, 0);
+   (TC 0, 0); (TC 0, 0); (TC 0, 0);
+   (TC 1, 0); (TC 1, 0); (TC 1, 0); (TC 1, 0); (TC 1, 0);
+   (TU 0, 0); (TU 0, 0); (TU 0, 0)].
+
+Lemma refuted_variant_loses_subscription :
+  exists nd cs us sched c p,
+    all_enabled_gen true nd (init cs us) sched = true /\
+    let s := run_from_gen true nd (init cs us) sched in
+    logs s c = [EReq (RAct (SM 0) false); EUpd p 0; ERep (RpActive (SM 0))] /\
+    c_pc (cth s c) = CRecv /\ c_script (cth s c) = [] /\
+    cache s p = 1 /\ u_pc (uth s 0) = UDone /\ listens s c p = false /\ tbl s = [].
+Proof.
+  exists one, [[RAct (SM 0) false; RClose]; [RAct (SM 0) false]], [[(P00, 1)]], lost_sched, 1, P00.
+  vm_compute. repeat split; reflexivity.
+Qed.
+
+(* the same interleaving on the model of the code: the update is delivered *)
+Lemma code_keeps_subscription :
+  let sched := lost_sched ++ [(TU 0, 1)] in
+  let s := run one [[RAct (SM 0) false; RClose]; [RAct (SM 0) false]] [[(P00, 1)]] sched in
+  all_enabled one (init [[RAct (SM 0) false; RClose]; [RAct (SM 0) false]] [[(P00, 1)]]) sched = true /\
+  logs s 1 = [EReq (RAct (SM 0) false); EUpd P00 0; ERep (RpActive (SM 0)); EUpd P00 1] /\ listens s 1 P00 = true.
+Proof. vm_compute. repeat split; reflexivity. Qed.
